@@ -416,7 +416,9 @@ class ThreadPool(object):
         """
         if not hasattr(method, "__call__"):
             raise ValueError(
-                "{0} has no __call__ member.".format(method.__name__)
+                "{0} has no __call__ member.".format(
+                    getattr(method, "__name__", repr(method))
+                )
             )
 
         # Prepare the future result object
@@ -499,8 +501,11 @@ class ThreadPool(object):
                         # Call the method
                         future.execute(method, args, kwargs)
                     except Exception as ex:
+                        # (a callable object or a partial has no __name__)
                         self._logger.exception(
-                            "Error executing %s: %s", method.__name__, ex
+                            "Error executing %s: %s",
+                            getattr(method, "__name__", repr(method)),
+                            ex,
                         )
                     finally:
                         # Mark the action as executed
